@@ -3,6 +3,7 @@ package main
 import (
 	"go/token"
 	"go/types"
+	"strings"
 
 	"golang.org/x/tools/go/ssa"
 )
@@ -20,6 +21,8 @@ func checkC20(c *Ctx) {
 	r.Rule("C20.Y2-reread", "watcher loop: index from 0 step 1, exit only when index >= len(p.pool) re-read inside the loop", 1)
 	r.Rule("C20.Y3-waits", "every wait in the watcher selects on the member channel pool[i] and on Pool.closed; cancel of the pool context is deferred on every exit", 2)
 	r.Rule("C20.Y4-add", "Add appends only on the default branch of select{<-p.Done(), <-p.closed}", 1)
+	r.Rule("C20.Y6-initial", "NewPool considers every initial context: the loop over ctx is left only by its index test, and an iteration that does not append has seen that context done", 1)
+	r.Rule("C20.Y7-cancel-clears", "every return of Cancel has cleared Pool.pool or seen it nil (Size is zero after Cancel)", 1)
 	r.Rule("C20.Y5-cancel", "close(Pool.closed) only under pool != nil, with pool cleared in the same block", 1)
 
 	ctxPkg := p.ModPath + "/context"
@@ -112,12 +115,12 @@ func checkC20(c *Ctx) {
 					hasDone = true
 				}
 			}
-			if hasDone && hasClosed && si.Default != nil && si.Default.Dominates(a.Instr.Block()) {
+			if hasDone && hasClosed && si.Default != nil && si.Default.Dominates(a.Instr.Block()) && e.At(sel)[lockID] == ModeW {
 				ok = true
 			}
 		})
 		r.Check(ok, "C20.Y4-add", "context.Pool.Add store to pool", p.Pos(instrPos(a.Instr)),
-			"append happens only when neither p.Done() nor p.closed is ready", "Add can append a member although the pool context is done or the pool was cancelled (or the select no longer checks both)")
+			"append happens only when neither p.Done() nor p.closed is ready, observed under the write lock", "the liveness test (select on p.Done()/p.closed) is not made under the same write-lock section as the append (a Cancel can slip in between), or Add can append a member although the pool context is done or the pool was cancelled (or the select no longer checks both)")
 	}
 	if nStores == 0 {
 		r.Violation("C20.Y4-add", "context.Pool.Add store to pool", p.Pos(add.Pos()), "Add no longer appends the offered context to the pool")
@@ -156,6 +159,9 @@ func checkC20(c *Ctx) {
 	if nClose == 0 {
 		r.Violation("C20.Y5-cancel", "context.Pool.Cancel close(Pool.closed)", p.Pos(p.Func("context", "Pool.Cancel").Pos()), "Cancel no longer closes Pool.closed: the watcher is not released")
 	}
+
+	checkC20Initial(c, newPool, poolField)
+	checkC20CancelClears(c, poolField)
 
 	c.Fixture("locks", func(fp *Prog, fr *Report) {
 		fe := NewLockEngine(fp)
@@ -367,4 +373,151 @@ func checkC20Cancel(c *Ctx, newPool, watcher *ssa.Function, wname string) {
 	r.Check(stored && deferred && !early, "C20.Y3-waits", construct, p.Pos(wc.Pos()),
 		"Pool.Context comes from WithCancel and its cancel is deferred by the watcher (runs on every exit, nowhere else)",
 		"the pool context's cancel is not deferred at the top of the watcher, or is invoked directly (pool could end early or never)")
+}
+
+// checkC20Initial: the loop over the initial contexts.
+func checkC20Initial(c *Ctx, newPool *ssa.Function, poolField FieldID) {
+	r, p := c.R, c.P
+	construct := "context.NewPool initial members"
+	// find the loop header: If comparing an index with len(ctx) parameter
+	var ctxParam *ssa.Parameter
+	for _, pa := range newPool.Params {
+		if _, ok := pa.Type().Underlying().(*types.Slice); ok {
+			ctxParam = pa
+		}
+	}
+	if ctxParam == nil {
+		r.Violation("C20.Y6-initial", construct, p.Pos(newPool.Pos()), "NewPool no longer takes the initial contexts as a variadic/slice parameter")
+		return
+	}
+	var header *ssa.BasicBlock
+	allInstrs(newPool, func(in ssa.Instruction) {
+		ifi, ok := in.(*ssa.If)
+		if !ok {
+			return
+		}
+		if cmp, ok := decodeCond(ifi.Cond, true); ok {
+			for _, v := range []ssa.Value{cmp.X, cmp.Y} {
+				if call, ok := v.(*ssa.Call); ok && builtinName(call) == "len" && call.Call.Args[0] == ctxParam {
+					header = ifi.Block()
+				}
+			}
+		}
+	})
+	if header == nil {
+		r.Violation("C20.Y6-initial", construct, p.Pos(newPool.Pos()), "no loop over the initial contexts (index test against len(ctx)) found in NewPool")
+		return
+	}
+	// loop body = blocks reachable from header that can reach header
+	inLoop := map[*ssa.BasicBlock]bool{}
+	for _, b := range newPool.Blocks {
+		if reachableFrom(header, nil)[b] && reachableFrom(b, nil)[header] {
+			inLoop[b] = true
+		}
+	}
+	why := ""
+	for b := range inLoop {
+		for _, s := range b.Succs {
+			if !inLoop[s] && b != header {
+				// leaving the loop from the body (break/return); panics have no successors
+				why = "the loop over the initial contexts can be left at " + p.Pos(instrPos(b.Instrs[len(b.Instrs)-1])) + " before all of them were considered (later members are never waited for)"
+			}
+		}
+	}
+	// per iteration: back edge states
+	const (
+		appended = 1 << iota
+		evidence
+	)
+	ff := &FlagFlow{Fn: newPool, Must: false, Entry: 1 << 0,
+		Transfer: func(in ssa.Instruction, st uint64) uint64 {
+			if in.Block() == header && in == header.Instrs[0] {
+				st = 1 << 0 // new iteration
+			}
+			if s, ok := in.(*ssa.Store); ok {
+				if fa, ok := s.Addr.(*ssa.FieldAddr); ok && fieldIDOfAddr(fa) == poolField {
+					if call, ok := s.Val.(*ssa.Call); ok && builtinName(call) == "append" {
+						return mapStates(st, func(x int) int { return x | appended })
+					}
+				}
+			}
+			return st
+		},
+		EdgeTransfer: func(from, to *ssa.BasicBlock, st uint64) uint64 {
+			if si, ks := selectEdgeCases(from, to); si != nil {
+				for _, k := range ks {
+					if k < len(si.Cases) && si.Cases[k].Dir == types.RecvOnly && strings.HasPrefix(si.Cases[k].Chan, "done:") {
+						return mapStates(st, func(x int) int { return x | evidence })
+					}
+				}
+			}
+			if len(from.Instrs) > 0 {
+				if ifi, ok := from.Instrs[len(from.Instrs)-1].(*ssa.If); ok {
+					br := from.Succs[0] == to
+					if cmp, ok := decodeCond(ifi.Cond, br); ok && cmp.Op == token.NEQ && isNilConst(cmp.Y) {
+						if call, ok := cmp.X.(*ssa.Call); ok && calleeObj(call) != nil && calleeObj(call).Name() == "Err" {
+							return mapStates(st, func(x int) int { return x | evidence })
+						}
+					}
+				}
+			}
+			return st
+		}}
+	ff.Run()
+	for _, pred := range header.Preds {
+		if !inLoop[pred] {
+			continue
+		}
+		st, ok := ff.Out(pred)
+		if !ok {
+			continue
+		}
+		st = ff.EdgeTransfer(pred, header, st)
+		if st&(1<<0) != 0 {
+			why = "an iteration over the initial contexts can end without appending the context and without having observed it done"
+		}
+	}
+	r.Check(why == "", "C20.Y6-initial", construct, p.Pos(instrPos(header.Instrs[len(header.Instrs)-1])), "every initial context is appended or was observed done; the loop ends only at len(ctx)", why)
+}
+
+// checkC20CancelClears: all returns of Cancel have pool == nil.
+func checkC20CancelClears(c *Ctx, poolField FieldID) {
+	r, p := c.R, c.P
+	fn := p.Func("context", "Pool.Cancel")
+	ff := &FlagFlow{Fn: fn, Must: true,
+		Transfer: func(in ssa.Instruction, st uint64) uint64 {
+			if s, ok := in.(*ssa.Store); ok {
+				if fa, ok := s.Addr.(*ssa.FieldAddr); ok && fieldIDOfAddr(fa) == poolField {
+					if isNilConst(s.Val) {
+						return st | 1
+					}
+					return st &^ 1
+				}
+			}
+			return st
+		},
+		EdgeTransfer: func(from, to *ssa.BasicBlock, st uint64) uint64 {
+			if len(from.Instrs) > 0 {
+				if ifi, ok := from.Instrs[len(from.Instrs)-1].(*ssa.If); ok && from.Succs[0] != from.Succs[1] {
+					br := from.Succs[0] == to
+					if cmp, ok := decodeCond(ifi.Cond, br); ok && cmp.Op == token.EQL && isNilConst(cmp.Y) {
+						if id, _, ok := fieldOfValue(cmp.X); ok && id == poolField {
+							return st | 1
+						}
+					}
+				}
+			}
+			return st
+		}}
+	ff.Run()
+	ok, n := true, 0
+	where := ""
+	ff.AtReturns(func(ret *ssa.Return, st uint64) {
+		n++
+		if st&1 == 0 {
+			ok = false
+			where = p.Pos(ret.Pos())
+		}
+	})
+	r.Check(ok && n > 0, "C20.Y7-cancel-clears", "context.Pool.Cancel clears pool", p.Pos(fn.Pos()), "every return of Cancel leaves Pool.pool nil", "Cancel can return (at "+where+") without dropping the members: Size() stays non-zero after Cancel")
 }
